@@ -132,7 +132,46 @@ func sourceKey(pointer string) string {
 		}
 	}
 
+	// A source must not replace one of the pages that always have the same
+	// name, like places.html. The first letter is written like a byte that is
+	// not kept. No other pointer can have that key because the letter would
+	// have been kept.
+	if isFixedPageKey(key) {
+		key = fmt.Sprintf("_%02x%s", key[0], key[1:])
+	}
+
 	return key
+}
+
+// sourceKeys returns the keys that are used for the pages of the sources.
+func sourceKeys(document *gedcom.Document) map[string]bool {
+	keys := map[string]bool{}
+
+	for _, source := range document.Sources() {
+		keys[sourceKey(source.Pointer())] = true
+	}
+
+	return keys
+}
+
+// isFixedPageKey returns true if the key would name one of the pages that
+// always have the same name, like "places" for places.html.
+func isFixedPageKey(key string) bool {
+	page := fmt.Sprintf("%s.html", key)
+
+	switch page {
+	case PagePlaces(), PageFamilies(), PageSurnames(), PageSources(),
+		PageStatistics(), PageIndividuals(symbolLetter):
+		return true
+	}
+
+	for letter := 'a'; letter <= 'z'; letter++ {
+		if page == PageIndividuals(letter) {
+			return true
+		}
+	}
+
+	return false
 }
 
 func PageStatistics() string {
@@ -179,7 +218,11 @@ func colorClassForIndividual(individual *gedcom.IndividualNode) string {
 	return colorClassForSex(individual.Sex())
 }
 
-func getUniqueKey(individualMap map[string]*gedcom.IndividualNode, s string, placesMap map[string]*place) string {
+// getUniqueKey returns s, or s followed by the first number that makes it
+// different from the keys of the individuals and places that have been named so
+// far, from the reserved keys (the pages of the sources) and from the pages that
+// always have the same name. Every page is written to its own file this way.
+func getUniqueKey(individualMap map[string]*gedcom.IndividualNode, s string, placesMap map[string]*place, reserved map[string]bool) string {
 	i := -1
 	for {
 		i += 1
@@ -194,6 +237,10 @@ func getUniqueKey(individualMap map[string]*gedcom.IndividualNode, s string, pla
 		}
 
 		if _, ok := placesMap[testString]; ok {
+			continue
+		}
+
+		if reserved[testString] || isFixedPageKey(testString) {
 			continue
 		}
 
